@@ -413,11 +413,27 @@ def extra_checks(run):
         if b.returncode != 0:
             run.notes.append("race build failed: " + b.stdout[-200:])
             return out
-        n = "300" if run.tier == "quick" else "5000"
-        r = subprocess.run([exe, "parq", "-seed", str(run.seed), "-n", n], stdout=subprocess.PIPE, stderr=subprocess.PIPE, text=True, timeout=3000)
-        run.notes.append("parallel queries: " + (r.stdout.strip().split("\n") or [""])[-1])
-        if "DATA RACE" in r.stderr or r.returncode != 0:
-            out.append(("race", "data race or wrong answer while running queries from 16 goroutines", r.stdout[-3000:] + "\n" + r.stderr[-6000:]))
+        # 16 separate processes (fresh package state each: a first-use effect such as a lazily filled package-level
+        # table can only race on its first uses), each hitting its structures from 16 goroutines
+        n = "40" if run.tier == "quick" else "600"
+        procs = [subprocess.Popen([exe, "parq", "-seed", str(run.seed * 100 + k), "-n", n], stdout=subprocess.PIPE, stderr=subprocess.PIPE, text=True)
+                 for k in range(16)]
+        summary = []
+        for k, pr in enumerate(procs):
+            try:
+                so, se = pr.communicate(timeout=3000)
+            except subprocess.TimeoutExpired:
+                pr.kill()
+                so, se = pr.communicate()
+                se += "\nTIMEOUT"
+            summary.append((so.strip().split("\n") or [""])[-1])
+            if "DATA RACE" in se or "concurrent map" in se or pr.returncode != 0:
+                out.append(("race", "data race or wrong answer while running queries from 16 goroutines (process %d, seed %d)" % (k, run.seed * 100 + k),
+                            so[-3000:] + "\n" + se[-6000:]))
+                for q in procs[k + 1:]:
+                    q.kill()
+                break
+        run.notes.append("parallel queries (16 processes): " + " | ".join(summary[:3]) + " ...")
     return out
 
 
